@@ -95,6 +95,10 @@ impl<T: 'static> HandleUpdate for OnUpdateHandler<T> {
         handlers in the current stabilization, we treat the added handler as if it were added
         after this stabilization finished.  We will run it at the next stabilization, because
         the node with the handler was pushed on [state.handle_after_stabilization]. */
+        #[cfg(cormacrelf_incremental_rs_verif)]
+        if !(self.created_at < now) {
+            crate::verif::probe(crate::verif::Probe::HandlerSkippedCreatedThisRound);
+        }
         if self.created_at < now {
             match (self.previous_update_kind.get(), node_update) {
                 /* Once a node is invalidated, there will never be further information to provide,
